@@ -26,25 +26,25 @@ _BLOCKED = [0]
 def _guarded(fn, *a):
     """fn(*a) with a watchdog: a call that does not return (a lock left held by
     an earlier call, a loop that does not end) is a result like any other -
-    the scoring functions are pure arithmetic and return at once."""
+    the scoring functions are pure arithmetic and return at once.  (An interval
+    timer: its signal interrupts a lock acquisition in the main thread.)"""
+    import signal
     import threading
-    box: list = []
+    if threading.current_thread() is not threading.main_thread():
+        return fn(*a)
 
-    def work():
-        try:
-            box.append(('ok', fn(*a)))
-        except BaseException as ex:  # noqa
-            box.append(('exc', ex))
-    t = threading.Thread(target=work, daemon=True)
-    t.start()
-    t.join(30.0 if _BLOCKED[0] == 0 else 0.2 if _BLOCKED[0] < 5 else 0.01)
-    if not box:
-        _BLOCKED[0] += 1
+    def on_timer(signum, frame):
         raise TimeoutError('the call did not return (blocked)')
-    kind, val = box[0]
-    if kind == 'exc':
-        raise val
-    return val
+    old = signal.signal(signal.SIGALRM, on_timer)
+    signal.setitimer(signal.ITIMER_REAL, 30.0 if _BLOCKED[0] == 0 else 0.2 if _BLOCKED[0] < 5 else 0.02)
+    try:
+        return fn(*a)
+    except TimeoutError:
+        _BLOCKED[0] += 1
+        raise
+    finally:
+        signal.setitimer(signal.ITIMER_REAL, 0)
+        signal.signal(signal.SIGALRM, old)
 
 
 def _call(fn, *a):
@@ -84,6 +84,27 @@ def score_events(order: str, r) -> List[Dict[str, Any]]:
              'vul': v, 'decl': d, 'tricks': t}
         e.update(_call(score.calc_score, c, t))
         evs.append(e)
+        if order == 'shuffled' and k % 17 == 3:
+            # the number of tricks as an integer of another type
+            import enum
+            T = enum.IntEnum('T', {f't{j}': j for j in range(14)})
+            for nm, tv in (('intenum', T(t)), ('bool-or-int', True if t == 1 else False if t == 0 else t)):
+                e3 = dict(e, tid=f'{order[0]}{k}.{nm}')
+                for key in ('raised', 'res', 'msg'):
+                    e3.pop(key, None)
+                e3.update(_call(score.calc_score, c, tv))
+                evs.append(e3)
+            try:
+                import numpy as np
+                e3 = dict(e, tid=f'{order[0]}{k}.np')
+                for key in ('raised', 'res', 'msg'):
+                    e3.pop(key, None)
+                res3 = _call(score.calc_score, c, np.int64(t))
+                if not (res3['raised'] and 'TypeError' in res3.get('msg', '')):
+                    e3.update(res3)
+                    evs.append(e3)
+            except ImportError:
+                pass
         if order == 'shuffled' and k % 5 == 0:
             # the contract reaches the scorer as a copy (a checkpoint restored, an
             # object sent to a worker process): it must still be the same contract
@@ -334,6 +355,45 @@ def imp_events(tier: str, r) -> List[Dict[str, Any]]:
             e = {'tid': f'k{k}.{name}', 'ev': 'imp', 'd': d, 'entry': name}
             e.update(_call(fn, d))
             evs.append(e)
+    # integers of other types: subclasses of int (an IntEnum member, a bool, a
+    # user's own class) ARE integers; numpy integers are what array code hands
+    # over - a refusal of those is accepted, a wrong value is not
+    import enum
+
+    class MyInt(int):
+        pass
+    Swing = enum.IntEnum('Swing', {'A': 20, 'B': 430, 'C': 4000, 'D': 10, 'E': 3490})
+    others = [('int-subclass', MyInt), ('negated-subclass', lambda d: -MyInt(-d))]
+    try:
+        import numpy as np
+        others += [('np.int64', np.int64), ('np.int32', np.int32), ('np.int16', lambda d: np.int16(max(-32000, min(32000, d))))]
+    except ImportError:
+        pass
+    for k, d in enumerate([-500, 500, -20, -10, 0, 10, 20, -4000, 4000, -7600, 19, -19, 45, -1750, 1740, 3490, -3500,
+                           r.randrange(-8000, 8000), r.randrange(-8000, 8000)]):
+        for name, conv in others:
+            dv = conv(d)
+            e = {'tid': f't{k}.{name}', 'ev': 'imp', 'd': int(dv), 'entry': name}
+            res = _call(f, dv)
+            if name.startswith('np.') and res['raised'] and 'TypeError' in res.get('msg', ''):
+                continue
+            e.update(res)
+            evs.append(e)
+            e2 = {'tid': f't{k}.{name}.2', 'ev': 'imp2', 'a': int(dv), 'b': 50, 'entry': name}
+            res = _call(g, dv, conv(50))
+            if name.startswith('np.') and res['raised'] and 'TypeError' in res.get('msg', ''):
+                continue
+            e2.update(res)
+            evs.append(e2)
+    for m_ in Swing:
+        for sg in (1, -1):
+            e = {'tid': f'te{m_.name}{sg}', 'ev': 'imp', 'd': sg * int(m_), 'entry': 'IntEnum'}
+            e.update(_call(f, m_ if sg == 1 else -m_))
+            evs.append(e)
+    for bv in (True, False):
+        e = {'tid': f'tb{bv}', 'ev': 'imp', 'd': int(bv), 'entry': 'bool'}
+        e.update(_call(f, bv))
+        evs.append(e)
     # two huge scores whose SUM is small: the two-score form is the scale of the sum
     for k, (big, d) in enumerate([(10 ** 30, 50), (2 ** 1024, -430), (10 ** 400, 0), (10 ** 4300, 20),
                                   (10 ** 5000, 50), (3 ** 40000, -3999), (10 ** 5000, 4000)]):
